@@ -38,7 +38,7 @@ class C12(P.Property):
                    "an unacknowledged request in flight when its connection ends may or may not have been applied"]
     probe_names = ["two_waiters_one_predecessor", "newcomer_during_cleanup", "waiter_closes_before_served", "predecessor_aborted",
                    "request_queued_while_waiting", "overlap_init_state_0", "overlap_init_state_1", "overlap_init_state_2",
-                   "three_overlapping"]
+                   "three_overlapping", "overlap_longer_than_20s"]
 
     def setup(self):
         world.setup_frontend()
@@ -71,7 +71,7 @@ class C12(P.Property):
                 sc.append(rng.choice(enabled))
             sc.append("abort" if rng.random() < 0.25 else "close")
             scripts[n] = sc
-        gaps = rng.choice([GAPS, GAPS, [0, 0.01, 0.3], [0.99, 1.0, 1.01, 2.5]])
+        gaps = rng.choice([GAPS, GAPS, [0, 0.01, 0.3], [0.99, 1.0, 1.01, 2.5], GAPS + [5, 12, 25, 45]])  # the last: long overlaps (keep-alive, timeouts)
         steps = []
         idx = {n: 0 for n in scripts}
         while any(idx[n] < len(scripts[n]) for n in scripts):
@@ -285,6 +285,10 @@ class C12(P.Property):
                     probes["predecessor_aborted"] = 1
         if overlapped:
             probes[f"overlap_init_state_{knobs['init_state']}"] = 1
+        for j in conns:
+            for pi in conns:
+                if opens[pi] < opens[j] < closes.get(pi, INF) and pi in closes and ev[closes[pi]][-1] - ev[opens[j]][-1] > 20:
+                    probes["overlap_longer_than_20s"] = 1
         # clause 2: no rollback
         actors = out.get("actors", {})
         cfg_acks = ([out["acked_cfg"]] if out["acked_cfg"] else []) + [n for n, a in sorted(actors.items()) if "config" in a.acks]
